@@ -10,13 +10,15 @@ import random
 import sys
 import traceback
 
-from .acc import Acc
+from .acc import Acc, ViolationBudget
 
 
 def _call(args):
     fn, shard = args
     try:
         return ('ok', fn(shard))
+    except ViolationBudget as b:
+        return ('ok', b.acc)
     except BaseException:   # noqa
         return ('err', 'shard %r\n%s' % (shard, traceback.format_exc()))
 
